@@ -139,10 +139,10 @@ def run(ck, F, tier):
         ok3b = same and guard and stair and dims
         why = "staircase arm: generator = new(rows, cols-rows) receiving (j,k) of h.iter_all() unchanged iff k < cols-rows [%s %s %s %s]" % (same, guard, stair, dims)
     ck.inst("S3", "from_h:H0-copy", ok3b, ins[0]["sp"] if ins else fb.span, why)
-    agree = acc["first"] == {"0"} and acc["rest"] == {"j", "j + -1"} and acc["count_ok"]
+    agree = acc["first"] == {num(0)} and acc["rest"] == {var("j"), var("j") - num(1)} and acc["count_ok"]
     ck.inst("S3", "reader-writer-agreement", agree and ok3 and ok3b, acc["site"],
             "is_staircase accepts, relative to column D = cols-rows: row 0 -> %s, row j != 0 -> %s, exactly 2*rows-1 ones (%s); the accumulator "
-            "p_j = s_j + p_(j-1), p_0 = s_0 solves exactly these equations" % (sorted(acc["first"]), sorted(acc["rest"]), acc["count_ok"]))
+            "p_j = s_j + p_(j-1), p_0 = s_0 solves exactly these equations" % (sorted(map(repr, acc["first"])), sorted(map(repr, acc["rest"])), acc["count_ok"]))
     # S4 dense arm
     idx = [s for s in a.tracer.sites if s["kind"] == "index" and s["fn"] == FROM_H]
     ok4 = False
